@@ -79,12 +79,18 @@ def validate_structure(gamesd):
                     problems.append({"game": name, "state": s, "problem": "probability not positive", "probs": ps})
                 if abs(sum(ps) - 1) > 1e-12:
                     problems.append({"game": name, "state": s, "problem": "probabilities do not sum to 1", "probs": ps})
-        if g["final_states"] != [n - 1]:
-            problems.append({"game": name, "problem": "final states are not [winning state]", "final_states": g["final_states"]})
-        if any(t != n - 1 for _, t in g["transition_list"][n - 1]):
+        # by structure, not by position: exactly one final state, absorbing; exactly one other absorbing state (the losing one)
+        fs = g["final_states"]
+        absorbing = [s for s, tr in enumerate(g["transition_list"]) if tr and all(t == s for _, t in tr)]
+        if len(fs) != 1:
+            problems.append({"game": name, "problem": "not exactly one final state", "final_states": fs})
+        elif fs[0] not in absorbing:
             problems.append({"game": name, "problem": "winning state not absorbing"})
-        if any(t != n - 2 for _, t in g["transition_list"][n - 2]) or (n - 2) in g["final_states"]:
-            problems.append({"game": name, "problem": "losing state not absorbing / final"})
+        losing = [s for s in absorbing if s not in fs]
+        if len(losing) != 1:
+            problems.append({"game": name, "problem": "there is not exactly one absorbing losing state", "absorbing_non_final": losing[:5]})
+        elif g["rewards"][losing[0]] != 0 or (fs and g["rewards"][fs[0]] != 0):
+            problems.append({"game": name, "problem": "winning / losing state carries a reward"})
     return problems, st
 
 
